@@ -32,8 +32,33 @@ type solveResult struct {
 }
 
 func runSolver(sp solverSpec, file string, timeoutS int) solveResult {
+	return runSolverCtx(context.Background(), sp, file, timeoutS)
+}
+
+// raceSolvers runs all solvers at once and returns as soon as one gives a definite answer
+// (the others are killed). Used after the first solver did not answer within a short slice.
+func raceSolvers(file string, timeoutS int) []solveResult {
+	ctx, cancel := context.WithCancel(context.Background())
+	defer cancel()
+	ch := make(chan solveResult, len(solvers))
+	for i := range solvers {
+		go func(i int) { ch <- runSolverCtx(ctx, solvers[i], file, timeoutS) }(i)
+	}
+	var all []solveResult
+	for range solvers {
+		r := <-ch
+		all = append(all, r)
+		if r.res == "unsat" || (r.res == "sat" && r.solver != "cvc5") {
+			cancel()
+			break
+		}
+	}
+	return all
+}
+
+func runSolverCtx(parent context.Context, sp solverSpec, file string, timeoutS int) solveResult {
 	t0 := time.Now()
-	ctx, cancel := context.WithTimeout(context.Background(), time.Duration(timeoutS+5)*time.Second)
+	ctx, cancel := context.WithTimeout(parent, time.Duration(timeoutS+5)*time.Second)
 	defer cancel()
 	a := sp.args(file, timeoutS)
 	cmd := exec.CommandContext(ctx, a[0], a[1:]...)
@@ -68,28 +93,31 @@ func solveOne(query, file string, timeoutS int, agree bool) (solveResult, []solv
 	}
 	var all []solveResult
 	if !agree {
-		r := runSolver(solvers[0], file, timeoutS)
+		// a short slice for the solver that decides almost everything at once, then a race of all three
+		slice := 2
+		if timeoutS < slice {
+			slice = timeoutS
+		}
+		r := runSolver(solvers[0], file, slice)
 		all = append(all, r)
 		if r.res == "unsat" || r.res == "sat" {
 			return r, all
 		}
-	}
-	var wg sync.WaitGroup
-	start := 1
-	if agree {
-		start = 0
-	}
-	rs := make([]solveResult, len(solvers))
-	for i := start; i < len(solvers); i++ {
-		wg.Add(1)
-		go func(i int) {
-			defer wg.Done()
-			rs[i] = runSolver(solvers[i], file, timeoutS)
-		}(i)
-	}
-	wg.Wait()
-	for i := start; i < len(solvers); i++ {
-		all = append(all, rs[i])
+		if timeoutS > slice {
+			all = append(all, raceSolvers(file, timeoutS)...)
+		}
+	} else {
+		var wg sync.WaitGroup
+		rs := make([]solveResult, len(solvers))
+		for i := range solvers {
+			wg.Add(1)
+			go func(i int) {
+				defer wg.Done()
+				rs[i] = runSolver(solvers[i], file, timeoutS)
+			}(i)
+		}
+		wg.Wait()
+		all = append(all, rs...)
 	}
 	best := all[0]
 	sawSat, sawUnsat := false, false
